@@ -381,6 +381,16 @@ def run(ctx):
                 ok = (isinstance(r, tuple) and r[0] == "call" and method_name(r[1]) == "collect" and isinstance(r[2][0], tuple) and r[2][0][0] == "call" and method_name(r[2][0][1]) == "map"
                       and r[2][0][2][0] == T("iter", T("param", 1, b.dbg.get(1, "")), "fwd") and b.ltypes.get(0, "").startswith("std::result::Result<std::vec::Vec<"))
         ck.ob("C13-R1", "layout_parsing_formatting::" + fn, "empty-slice->empty-list", ok)
+    # every list of the shorthand is read element by element, in order, each element exactly once (alias definitions
+    # with extra output keys included)
+    from .c15 import _in_order_list_parser
+    LPF_ = "layout_parsing_formatting::"
+    for fn_, eps_ in ((LPF_ + "parse_from_modifiers", {LPF_ + "parse_from_modifier"}), (LPF_ + "parse_to_initial", {LPF_ + "parse_to_initial_elem"}),
+                      (LPF_ + "parse_alias_to_initial", {LPF_ + "parse_key_code_j"})):
+        if not ctx.has_body(fn_):
+            continue
+        ok_, why_ = _in_order_list_parser(ctx, fn_, eps_)
+        ck.ob("C13-R1", fn_, "list-parsed-in-order,element-by-element", ok_, detail=why_)
     pf = ctx.body("layout_parsing_formatting::parse_from")
     v = T("param", 1, pf.dbg.get(1, ""))
     bare_ok = arr_ok = False
